@@ -1,7 +1,7 @@
 --------------------------- MODULE VecSolveTrace ---------------------------
 (* code -> spec for C16.  Every call of the real solve_for_vector /          *)
 (* solve_for_scalar / apply made by the harness is recorded:                 *)
-(*   op      "solve" | "apply" | "scalar" | "radical" | "system" (ts =       *)
+(*   op      "solve" | "apply" | "scalar" | "radical" | "power" | "system" (ts = *)
 (*           <<coefficients, requested unknowns>>, sols = the returned       *)
 (*           equations as <<unknown index, value program>>)                  *)
 (*   ts      the equation given to the library (term list of VecSolve, or    *)
@@ -38,6 +38,10 @@ Verdict(A, rec) ==
          IF rec.outcome = "raised" THEN "bad"
          ELSE IF rec.nonvec = 1 THEN ApplyScalarVerdict(A, rec.ts[1], rec.fn, Eval(A, rec.lhs), Eval(A, rec.rhs))
          ELSE ApplyVerdict(A, rec.ts, rec.fn, Eval(A, rec.lhs), Eval(A, rec.rhs))
+    [] rec.op = "power" ->
+         IF rec.outcome = "false" THEN "bad"
+         ELSE IF rec.outcome = "raised" \/ rec.lhs # << X >> THEN "un"
+         ELSE PowerVerdict(A, rec.ts[1], Eval(A, rec.rhs))
     [] rec.op = "system" ->
          IF rec.outcome = "raised" THEN "un" ELSE SystemVerdict(A, rec.ts[1], rec.sols)
     [] rec.op \in {"scalar", "radical"} ->
